@@ -21,8 +21,11 @@ for d in sorted(glob.glob(os.path.join(R, 'seeded', 'C*'))):
     srows.append(f"| {m['property_broken']} | {m['change']} | {m['needs_to_manifest']} | {m['result']} | {m.get('strengthening','–')} | {m.get('result_after_strengthening','(unchanged) caught')} |")
 seeds = "\n".join(srows)
 metas = [json.load(open(os.path.join(d, 'meta.json'))) for d in sorted(glob.glob(os.path.join(R, 'seeded', 'C*')))]
-n_all = len(metas); n_str = len([m for m in metas if m.get('strengthening')]); n_r1 = len([m for m in metas if m.get('round', 1) == 1]); n_r2 = n_all - n_r1
-seedsummary = f"{n_all} seeded changes in two rounds ({n_r1} + {n_r2}): {n_all - n_str} were reported by the checks as they stood when the change arrived, {n_str} were not and led to strengthened checks; all are reported now (last column)."
+n_all = len(metas); n_str = len([m for m in metas if m.get('strengthening')])
+rounds = sorted({m.get('round', 1) for m in metas})
+per_round = [len([m for m in metas if m.get('round', 1) == r]) for r in rounds]
+words = {1: 'one round', 2: 'two rounds', 3: 'three rounds', 4: 'four rounds'}
+seedsummary = f"{n_all} seeded changes in {words.get(len(rounds), str(len(rounds)) + ' rounds')} ({' + '.join(str(x) for x in per_round)}): {n_all - n_str} were reported by the checks as they stood when the change arrived, {n_str} were not and led to strengthened checks; all are reported now (last column)."
 tail = rd('05_tail.md').replace('@@TABLE@@', table).replace('@@FIXES@@', fixes).replace('@@FIXED@@', fixed).replace('@@KNOWN@@', known).replace('@@SEEDS@@', seeds).replace('@@SEEDSUMMARY@@', seedsummary.replace(' (last column)', ''))
 nfix = len([l for l in log if l.split(' ',1)[1].startswith('fix:')])
 nfixed = len([f for f in k if f['status'] == 'fixed'])
